@@ -97,8 +97,44 @@ def enc(r):
     return repr(r)
 
 
+REG_CLASSES = None
+
+
+def _reg_classes():
+    global REG_CLASSES
+    if REG_CLASSES is None:
+        REG_CLASSES = [(NT, 'c17nt', NT(1, 2)), (Other, 'c17o', Other()), (Hooked, 'c17h', Hooked())]
+    return REG_CLASSES
+
+
+def views():
+    """what the three views of the registry (Python mirror, none-is-node engine table, none-is-leaf engine table)
+    say about the classes the registration operations touch"""
+    out = []
+    for cls, ns, inst in _reg_classes():
+        mirror = optree.register_pytree_node.get(cls, namespace=ns) is not None
+        custom = []
+        for nil in (False, True):
+            try:
+                k = optree.tree_structure(inst, namespace=ns, none_is_leaf=nil).kind
+                custom.append(k == optree.PyTreeKind.CUSTOM)
+            except Exception as e:  # noqa: BLE001
+                custom.append(type(e).__name__)
+        out.append((cls.__name__, mirror, custom[0], custom[1]))
+    return tuple(out)
+
+
+def cleanup_registrations():
+    for cls, ns, _ in _reg_classes():
+        try:
+            optree.unregister_pytree_node(cls, namespace=ns)
+        except Exception:  # noqa: BLE001
+            pass
+
+
 def operations(ctx):
-    """name -> (engine functions for the model, thunk(hook) -> encoded result)"""
+    """name -> (engine functions for the model, thunk(hook) -> encoded result, setup or None)
+    Every thunk is ONE call of the public API (registrations are cleaned up by the caller afterwards)."""
     tree, spec, spec_b, leaves = ctx['tree'], ctx['spec'], ctx['spec_b'], ctx['leaves']
 
     def pred(hook):
@@ -113,6 +149,13 @@ def operations(ctx):
             return x
         return f
 
+    def outcome(f):
+        try:
+            f()
+            return 'ok'
+        except (ValueError, KeyError, TypeError) as e:
+            return type(e).__name__
+
     def register_nt(hook):
         # registering a namedtuple class warns: the warnings machinery calls user code
         def show(*a, **k):
@@ -122,93 +165,92 @@ def operations(ctx):
             old = warnings.showwarning
             warnings.showwarning = show
             try:
-                try:
-                    optree.register_pytree_node(NT, lambda x: (tuple(x), None), lambda md, ch: NT(*ch), namespace='c17nt')
-                    out = 'registered'
-                except ValueError:
-                    return 'ValueError'
+                return outcome(lambda: optree.register_pytree_node(NT, lambda x: (tuple(x), None), lambda md, ch: NT(*ch),
+                                                                   namespace='c17nt'))
             finally:
                 warnings.showwarning = old
-        optree.unregister_pytree_node(NT, namespace='c17nt')
-        return out
 
     def register_other(hook):
-        try:
-            optree.register_pytree_node(Other, lambda x: ((), None), lambda md, ch: Other(), namespace='c17o')
-        except ValueError:
-            return 'ValueError'
-        optree.unregister_pytree_node(Other, namespace='c17o')
-        return 'registered'
+        return outcome(lambda: optree.register_pytree_node(Other, lambda x: ((), None), lambda md, ch: Other(), namespace='c17o'))
 
-    def register_dup_hooked(hook):
-        # the error message of a failed registration formats the class: the metaclass __repr__ is user code
-        optree.register_pytree_node(Hooked, lambda x: ((), None), lambda md, ch: Hooked(), namespace='c17h')
-        try:
-            try:
-                optree.register_pytree_node(Hooked, lambda x: ((), None), lambda md, ch: Hooked(), namespace='c17h')
-                return 'second registration accepted'
-            except ValueError:
-                return 'ValueError'
-        finally:
-            optree.unregister_pytree_node(Hooked, namespace='c17h')
-
-    def unregister_missing_hooked(hook):
-        try:
-            optree.unregister_pytree_node(Hooked, namespace='c17missing')
-            return 'accepted'
-        except ValueError:
-            return 'ValueError'
+    def register_hooked(hook):
+        return outcome(lambda: optree.register_pytree_node(Hooked, lambda x: ((), None), lambda md, ch: Hooked(), namespace='c17h'))
 
     def shared_iter(hook):
         return [enc(x) for x in ctx['shared_iter']]
     L = 'src/registry.cpp:Lookup'
+    R, U = 'src/registry.cpp:RegisterImpl', 'src/registry.cpp:UnregisterImpl'
     ops = {
-        'flatten_pred': ([L], lambda hook: enc(optree.tree_flatten(tree, is_leaf=pred(hook), namespace=NS))),
-        'flatten_custom': ([L], lambda hook: enc(optree.tree_flatten(tree, namespace=NS))),
-        'flatten_with_path': ([L], lambda hook: enc(optree.tree_flatten_with_path(tree, namespace=NS)[1])),
-        'map': ([L], lambda hook: enc(optree.tree_map(fn(hook), tree, namespace=NS))),
-        'unflatten': ([], lambda hook: enc(optree.tree_unflatten(spec, leaves))),
-        'iter': ([L], lambda hook: enc(list(optree.tree_iter(tree, is_leaf=pred(hook), namespace=NS)))),
-        'spec_eq': ([], lambda hook: repr((spec == spec_b, spec != spec_b, spec.is_prefix(spec_b)))),
-        'spec_hash': (['src/treespec/hashing.cpp:HashValue'], lambda hook: repr(hash(spec) == hash(spec_b))),
-        'spec_hash_same': (['src/treespec/hashing.cpp:HashValue'], lambda hook: repr(hash(spec) == ctx['hash0'])),
-        'spec_repr': (['src/treespec/serialization.cpp:ToString'], lambda hook: repr(spec)),
-        'pickle': (['src/registry.cpp:Lookup'], lambda hook: enc(__import__('pickle').loads(__import__('pickle').dumps(spec)))),
-        'paths_accessors': ([], lambda hook: repr((spec.paths(), len(spec.accessors())))),
-        'register_nt': (['src/registry.cpp:RegisterImpl', 'src/registry.cpp:UnregisterImpl'], register_nt),
-        'register_other': (['src/registry.cpp:RegisterImpl', 'src/registry.cpp:UnregisterImpl'], register_other),
-        'register_dup_hooked': (['src/registry.cpp:RegisterImpl', 'src/registry.cpp:UnregisterImpl'], register_dup_hooked),
-        'unregister_missing_hooked': (['src/registry.cpp:UnregisterImpl'], unregister_missing_hooked),
+        'flatten_pred': ([L], lambda hook: enc(optree.tree_flatten(tree, is_leaf=pred(hook), namespace=NS)), None),
+        'flatten_custom': ([L], lambda hook: enc(optree.tree_flatten(tree, namespace=NS)), None),
+        'flatten_with_path': ([L], lambda hook: enc(optree.tree_flatten_with_path(tree, namespace=NS)[1]), None),
+        'map': ([L], lambda hook: enc(optree.tree_map(fn(hook), tree, namespace=NS)), None),
+        'unflatten': ([], lambda hook: enc(optree.tree_unflatten(spec, leaves)), None),
+        'iter': ([L], lambda hook: enc(list(optree.tree_iter(tree, is_leaf=pred(hook), namespace=NS))), None),
+        'spec_eq': ([], lambda hook: repr((spec == spec_b, spec != spec_b, spec.is_prefix(spec_b))), None),
+        'spec_hash': (['src/treespec/hashing.cpp:HashValue'], lambda hook: repr(hash(spec) == hash(spec_b)), None),
+        'spec_hash_same': (['src/treespec/hashing.cpp:HashValue'], lambda hook: repr(hash(spec) == ctx['hash0']), None),
+        'spec_repr': (['src/treespec/serialization.cpp:ToString'], lambda hook: repr(spec), None),
+        'pickle': ([L], lambda hook: enc(__import__('pickle').loads(__import__('pickle').dumps(spec))), None),
+        'paths_accessors': ([], lambda hook: repr((spec.paths(), len(spec.accessors()))), None),
+        'register_nt': ([R], register_nt, None),
+        'unregister_nt': ([U], lambda hook: outcome(lambda: optree.unregister_pytree_node(NT, namespace='c17nt')), None),
+        'unregister_nt_registered': ([U], lambda hook: outcome(lambda: optree.unregister_pytree_node(NT, namespace='c17nt')),
+                                     lambda: register_nt(lambda *a: None)),
+        'register_other': ([R], register_other, None),
+        'unregister_other_registered': ([U], lambda hook: outcome(lambda: optree.unregister_pytree_node(Other, namespace='c17o')),
+                                        lambda: register_other(None)),
+        # the error message of a failed (un)registration formats the class: the metaclass __repr__ is user code
+        'register_dup_hooked': ([R], register_hooked, lambda: register_hooked(None)),
+        'unregister_missing_hooked': ([U], lambda hook: outcome(lambda: optree.unregister_pytree_node(Hooked, namespace='c17h')),
+                                      None),
+        'unregister_hooked_registered': ([U], lambda hook: outcome(lambda: optree.unregister_pytree_node(Hooked, namespace='c17h')),
+                                         lambda: register_hooked(None)),
+        'flatten_nt_instance': ([L], lambda hook: repr([optree.tree_structure(NT(1, (2, 3)), namespace='c17nt', none_is_leaf=n).num_nodes
+                                                        for n in (False, True)]) if False else
+                                enc(optree.tree_leaves(NT(1, (2, 3)), namespace='c17nt')), None),
         'is_namedtuple_class': (['include/optree/pytypes.h:IsNamedTupleClass', 'include/optree/pytypes.h:IsStructSequenceClass'],
                                 lambda hook: repr((optree.is_namedtuple_class(Hooked), optree.is_structseq_class(Hooked),
-                                                   optree.is_namedtuple_class(NT)))),
+                                                   optree.is_namedtuple_class(NT))), None),
         'dict_order_read': (['include/optree/treespec.h:IsDictInsertionOrdered'],
                             lambda hook: repr(optree.is_dict_insertion_ordered(namespace=NS))
-                            if hasattr(optree, 'is_dict_insertion_ordered') else 'n/a'),
-        'shared_iter': ([L], shared_iter),
+                            if hasattr(optree, 'is_dict_insertion_ordered') else 'n/a', None),
+        'shared_iter': ([L], shared_iter, None),
     }
     return ops
 
 
 A_OPS = ['flatten_pred', 'flatten_custom', 'flatten_with_path', 'map', 'unflatten', 'iter', 'spec_eq', 'spec_hash', 'spec_repr',
          'pickle', 'register_nt', 'register_dup_hooked', 'unregister_missing_hooked', 'is_namedtuple_class', 'shared_iter']
-B_OPS = ['flatten_custom', 'register_other', 'register_nt', 'spec_hash_same', 'spec_repr', 'spec_eq', 'unflatten', 'map',
-         'is_namedtuple_class', 'dict_order_read', 'paths_accessors', 'shared_iter']
+B_OPS = ['flatten_custom', 'register_other', 'register_nt', 'unregister_nt', 'unregister_nt_registered',
+         'unregister_other_registered', 'unregister_hooked_registered', 'flatten_nt_instance', 'spec_hash_same', 'spec_repr',
+         'spec_eq', 'unflatten', 'map', 'is_namedtuple_class', 'dict_order_read', 'paths_accessors', 'shared_iter']
+
+
+def _mk_ctx():
+    ctx = context()
+    ctx['hash0'] = hash(ctx['spec'])
+    ctx['mk_iter'] = lambda: optree.tree_iter(     # noqa: E731
+        ctx['tree'], is_leaf=lambda x: (universe.CALLBACK_HOOK('pred', x) if universe.CALLBACK_HOOK else None, False)[1],
+        namespace=NS)
+    ctx['shared_iter'] = ctx['mk_iter']()
+    return ctx
 
 
 def count_callbacks(name):
     """number of switch points of operation `name` when it runs alone"""
     def cell():
-        ctx = context()
-        ctx['hash0'] = hash(ctx['spec'])
-        ctx['shared_iter'] = optree.tree_iter(ctx['tree'], is_leaf=lambda x: (universe.CALLBACK_HOOK('pred', x) if universe.CALLBACK_HOOK else None, False)[1], namespace=NS)
+        ctx = _mk_ctx()
+        op = operations(ctx)[name]
+        if op[2] is not None:
+            op[2]()
         n = [0]
 
         def hook(kind, obj=None):
             n[0] += 1
         universe.CALLBACK_HOOK = hook
         try:
-            operations(ctx)[name][1](hook)
+            op[1](hook)
         finally:
             universe.CALLBACK_HOOK = None
         return n[0]
@@ -219,21 +261,31 @@ def count_callbacks(name):
 
 
 def run_pair(name_a, name_b, park_at, timeout=20):
-    """park A inside its callback number `park_at`, run B meanwhile.  Returns (status, detail):
-    'completes' (with both results and the results of running each alone), 'deadlock', 'crash'"""
+    """park A inside its callback number `park_at`, run B meanwhile.  Returns (status, detail): 'completes' (with
+    both results, the final registry views, and the same for the two sequential orders), 'deadlock', 'crash'"""
     def cell():
-        ctx = context()
-        ctx['hash0'] = hash(ctx['spec'])
-        mk_iter = lambda: optree.tree_iter(     # noqa: E731
-            ctx['tree'], is_leaf=lambda x: (universe.CALLBACK_HOOK('pred', x) if universe.CALLBACK_HOOK else None, False)[1],
-            namespace=NS)
+        ctx = _mk_ctx()
         ops = operations(ctx)
         nohook = lambda kind, obj=None: None     # noqa: E731
-        ctx['shared_iter'] = mk_iter()
-        alone_a = ops[name_a][1](nohook)
-        ctx['shared_iter'] = mk_iter()
-        alone_b = ops[name_b][1](nohook)
-        ctx['shared_iter'] = mk_iter()
+
+        def setup():
+            cleanup_registrations()
+            for n in (name_a, name_b):
+                if ops[n][2] is not None:
+                    ops[n][2]()
+            ctx['shared_iter'] = ctx['mk_iter']()
+
+        def sequential(first, second):
+            setup()
+            r1 = ops[first][1](nohook)
+            r2 = ops[second][1](nohook)
+            v = views()
+            return (r1, r2, v) if first == name_a else (r2, r1, v)
+        seq_ab = sequential(name_a, name_b)
+        seq_ba = sequential(name_b, name_a) if name_a != name_b else seq_ab
+        if name_a == name_b:
+            seq_ba = (seq_ab[1], seq_ab[0], seq_ab[2])
+        setup()
         a_ident = threading.get_ident()
         state = {'n': 0, 'thread': None}
         res_b = {}
@@ -269,8 +321,10 @@ def run_pair(name_a, name_b, park_at, timeout=20):
             t.join(5)
             if t.is_alive():
                 return {'status': 'python-level-deadlock'}
-        return {'status': 'completes', 'parked': t is not None, 'a': res_a, 'b': res_b.get('r'), 'alone_a': alone_a,
-                'alone_b': alone_b}
+        v = views()
+        cleanup_registrations()
+        return {'status': 'completes', 'parked': t is not None, 'run': (res_a, res_b.get('r'), v), 'seq_ab': seq_ab,
+                'seq_ba': seq_ba}
     status, text = in_child(cell, timeout=timeout)
     if status == 'timeout':
         return 'deadlock', text
